@@ -5,6 +5,8 @@ package sftp
 import (
 	"io"
 	"os"
+	"syscall"
+	"time"
 )
 
 func vDirMax() int {
@@ -16,6 +18,16 @@ func vDirMax() int {
 
 // model directory: n entries with arbitrary names (so ".", ".." and
 // duplicates occur) and distinguishable attributes
+var vModelDirStatT bool
+
+func vOwnerOf(fi os.FileInfo) (uint32, uint32) {
+	if x, ok := fi.(FileInfoUidGid); ok {
+		return x.Uid(), x.Gid()
+	}
+	st := fi.Sys().(*syscall.Stat_t)
+	return st.Uid, st.Gid
+}
+
 func vModelDir() []os.FileInfo {
 	n := vChoice(vDirMax() + 1)
 	var ents []os.FileInfo
@@ -29,7 +41,15 @@ func vModelDir() []os.FileInfo {
 		case 2:
 			name = "a"
 		}
-		ents = append(ents, &vFI{name: name, size: int64(10 + i), mode: 0o644, mtime: vEpoch})
+		// owner and time distinguishable too, uid != gid (added after seeded change C16-d);
+		// the owner travels by FileInfoUidGid or by *syscall.Stat_t
+		base := vFI{name: name, size: int64(10 + i), mode: 0o644, mtime: vEpoch.Add(time.Duration(i) * time.Second)}
+		if vModelDirStatT {
+			base.sys = &syscall.Stat_t{Uid: uint32(100 + i), Gid: uint32(200 + i)}
+			ents = append(ents, &base)
+		} else {
+			ents = append(ents, &vFIUidGid{vFI: base, uid: uint32(100 + i), gid: uint32(200 + i)})
+		}
 	}
 	return ents
 }
@@ -77,6 +97,10 @@ func vCheckListing(got []os.FileInfo, err error, ents []os.FileInfo) {
 	vAssert(len(got) == len(want), "every entry exactly once, dot entries excluded")
 	for i := 0; i < len(got) && i < len(want); i++ {
 		vAssert(got[i].Name() == want[i].Name() && got[i].Size() == want[i].Size() && got[i].Mode() == want[i].Mode(), "entry and attributes as reported by the server")
+		vAssert(got[i].ModTime().Unix() == want[i].ModTime().Unix(), "modification time as reported by the server")
+		st, ok := got[i].Sys().(*FileStat)
+		uid, gid := vOwnerOf(want[i])
+		vAssert(ok && st.UID == uid && st.GID == gid, "owner as reported by the server")
 	}
 	vAssert(vLoopRequests <= len(ents)+4, "terminates within size+4 requests (opendir, readdirs, EOF, close)")
 	vEmit("n", len(got))
@@ -88,6 +112,7 @@ func vh_C16_reqserver() {
 	vHReset()
 	vLoopRequests = 0
 	MaxFilelist = 2
+	vModelDirStatT = false
 	ents := vModelDir()
 	l := &vLister{ents: ents}
 	h := vListHandler{l: l}
